@@ -46,7 +46,18 @@ from .proglib import D, P
 
 INT_KINDS = ("int",)
 OPT_KEYS = ("oa", "ob", "oc")
-SCOPES = ("NONE", "CSE", "BACKEND")
+
+
+class Raw(str):
+    """A piece of source text used as an option value (its repr is the text itself)."""
+
+    def __repr__(self) -> str:
+        return str(self)
+
+
+# the cache scope as the documented strings and as the enum members
+SCOPES = ("NONE", "CSE", "BACKEND",
+          Raw("CacheScope.NONE"), Raw("CacheScope.CSE"), Raw("CacheScope.BACKEND"))
 KINDS = ("int", "list", "tuple", "dict", "nt", "dc")
 
 ALL_FEATURES = {
@@ -258,7 +269,7 @@ class Gen:
                 if ch.coin(0.1, "def-prov-false"):
                     t.options["prov"] = False
                 if ch.coin(0.2, "def-cache-scope"):
-                    t.options["cache_scope"] = SCOPES[ch.choice(3, "def-cache-scope-val")]
+                    t.options["cache_scope"] = SCOPES[ch.choice(6, "def-cache-scope-val")]
             if cfg.task_options and ch.coin(cfg.p_task_option, "topt?"):
                 t.options.update(cfg.task_options[ch.choice(len(cfg.task_options), "topt")])
         # Special recover tasks are appended on demand.
@@ -478,7 +489,7 @@ class Gen:
             if ch.coin(0.15, "call-cache-scope?"):
                 # the cache scope as one more option set at call time or exported at call time
                 grp = "options" if ch.coin(0.6, "call-cache-scope-as-option") else "export"
-                opts.setdefault(grp, {})["cache_scope"] = SCOPES[ch.choice(3, "call-cache-scope-val")]
+                opts.setdefault(grp, {})["cache_scope"] = SCOPES[ch.choice(6, "call-cache-scope-val")]
         if self.cfg.call_options and ch.coin(self.cfg.p_call_option, "copt?"):
             opts["options"] = dict(self.cfg.call_options[ch.choice(len(self.cfg.call_options), "copt")])
         node = ("call", callee.idx, args, kwargs, opts)
@@ -809,6 +820,7 @@ from redun import task, cond, catch, apply_tags, get_context
 from redun.scheduler import catch_all
 from redun.functools import seq, map_, flat_map, apply_func, no_prov
 from redun.scheduler import fork_thread, join_thread, subrun
+from redun.task import CacheScope
 from simkit.proglib import P, D, ErrA, ErrB, ErrRes, mix, errcode, hsum, hlist, hit
 
 redun_namespace = "{ns}"
